@@ -390,8 +390,6 @@ def run_op(w, o):
                     w.done(dst_i, dst)
         finally:
             w.done(src_i, src)
-        import gc
-        gc.collect()
         return
     if op == "snap":
         w.mem[o["dst"]] = Dataset.open(w.paths[o["src"]], "copy")
